@@ -118,6 +118,10 @@ VARIANTS = [
     ("psbt: the DER part of a partial signature given a name", "btclib.psbt.psbt", lambda s: s.replace("        if not dsa.verify_(msg_hash, pub_key, sig[:-1]):\n            err_msg = f\"invalid partial signature for pub_key", "        der_sig = sig[:-1]\n        if not dsa.verify_(msg_hash, pub_key, der_sig):\n            err_msg = f\"invalid partial signature for pub_key", 1)),
     ("compact_blocks: the siphash key halves read through locals", "btclib.p2p.compact_blocks", lambda s: s.replace("        k0 = int.from_bytes(digest[:8], byteorder=\"little\", signed=False)\n", "        low = digest[:8]\n        k0 = int.from_bytes(low, byteorder=\"little\", signed=False)\n", 1)),
     ("taproot: the branch paths built in one expression", "btclib.script.taproot", lambda s: s.replace("    info = [(leaf, c + right_h) for leaf, c in left]\n    info += [(leaf, c + left_h) for leaf, c in right]\n", "    info = [(leaf, c + right_h) for leaf, c in left] + [\n        (leaf, c + left_h) for leaf, c in right\n    ]\n", 1)),
+    ("descriptors: the miniscript test with its halves the other way round", "btclib.descriptors.descriptors", lambda s: s.replace("    if name not in _PARSERS and context in _MINISCRIPT_CONTEXTS:\n", "    if context in _MINISCRIPT_CONTEXTS and name not in _PARSERS:\n", 1)),
+    ("miniscript: the v: wrapper's child given a name in the size", "btclib.descriptors.miniscript", lambda s: s.replace('        return size + _has(node.subs[0].properties, "x")\n', '        child = node.subs[0]\n        return size + _has(child.properties, "x")\n', 1)),
+    ("sig_hash: the legacy copy's script code set through a local input", "btclib.script.sig_hash", lambda s: s.replace("    new_tx.vin[vin_i].script_sig = script_code\n    return new_tx\n", "    signed_input = new_tx.vin[vin_i]\n    signed_input.script_sig = script_code\n    return new_tx\n", 1)),
+    ("number_theory: the unblinded retry answered through a local", "btclib.number_theory", lambda s: s.replace("        return mod_inv_var(a, m)\n", "        plain = mod_inv_var(a, m)\n        return plain\n", 1)),
     ("psbt_in: two from_dict arguments passed by keyword", "btclib.psbt.psbt_in", lambda s: s.replace('            dict_["unknown"],\n            dict_["previous_tx_id"],', '            unknown=dict_["unknown"],\n            previous_tx_id=dict_["previous_tx_id"],', 1) if False else s.replace('            dict_["taproot_internal_key"],\n            dict_["taproot_merkle_root"],\n', '            dict_["taproot_internal_key"],  # the key\n            dict_["taproot_merkle_root"],  # the root\n', 1)),
 ]
 
